@@ -12,7 +12,7 @@ import (
 func init() {
 	register("I1", "canonical representation is decided in one place: makeBigInt is called only by the three range-testing constructors (MakeInt64, MakeUint64, MakeBigInt) and makeSmallInt only inside the Int implementation files", 8, ruleI1)
 	register("I7", "the accessor Int.get returns the small arm only for values proven small: every return with a nil big arm is dominated by the isSmall test (fallback representation) or the pointer-range test (packed representation)", 1, ruleI7)
-	register("I4", "narrowing failures are errors: wherever AsInt32, AsInt, Int.Int64, Int.Uint64 or NumberToInt reports failure, the failing edge leads to an error return (or a panic), never to an ordinary result", 25, ruleI4)
+	register("I4", "narrowing failures are errors: wherever AsInt32, AsInt, Int.Int64, Int.Uint64 or NumberToInt reports failure, the failing edge leads to an error return (or a panic), never to an ordinary result", 18, ruleI4)
 	register("I5", "truncating float-to-int conversions occur only where the specification truncates: the callers of NumberToInt (on a possibly-float operand) and finiteFloatToInt are the int() conversion, integer formatting verbs, Float.Hash and math.floor/ceil (argument already integral)", 5, ruleI5)
 	register("I3", "division preconditions: every call of Int.Div / Int.Mod is dominated by a test that the divisor is non-zero", 2, ruleI3)
 }
@@ -279,11 +279,73 @@ func ruleI4(c *Ctx) {
 				}
 				return
 			}
+			// `valid := err == nil && 0 <= r && r <= max; if !valid { return error }`: the failing edge enters
+			// a block whose boolean phi is a constant on that edge and decides the block's own branch
+			for i, fb := range failBlocks {
+				for hops := 0; hops < 3; hops++ {
+					if len(fb.Instrs) == 0 {
+						break
+					}
+					ifi, isIf := fb.Instrs[len(fb.Instrs)-1].(*ssa.If)
+					if !isIf {
+						break
+					}
+					cv, neg := stripNot(ifi.Cond)
+					phi, isPhi := cv.(*ssa.Phi)
+					if !isPhi || phi.Block() != fb {
+						break
+					}
+					// all constant edges of the phi agree, and the failing edge is one of them
+					val, have, mixed := false, false, false
+					for ei, e := range phi.Edges {
+						k, isK := e.(*ssa.Const)
+						if !isK || k.Value == nil {
+							continue
+						}
+						// only edges that can be the failing one: predecessors that test the flag
+						pred := fb.Preds[ei]
+						if len(pred.Instrs) == 0 {
+							continue
+						}
+						pif, ok := pred.Instrs[len(pred.Instrs)-1].(*ssa.If)
+						if !ok {
+							continue
+						}
+						uses := false
+						for y := range backSlice(pif.Cond) {
+							if y == flag {
+								uses = true
+							}
+						}
+						if !uses {
+							continue
+						}
+						v := k.Value.String() == "true"
+						if have && v != val {
+							mixed = true
+						}
+						val, have = v, true
+					}
+					if !have || mixed {
+						break
+					}
+					if val != neg {
+						fb = fb.Succs[0]
+					} else {
+						fb = fb.Succs[1]
+					}
+					failBlocks[i] = fb
+				}
+			}
 			for _, fb := range failBlocks {
 				if ok, why := failsWithError(fb, fn, 0, map[*ssa.BasicBlock]bool{}); !ok {
 					// a fallback that recomputes with the un-narrowed value (fast path / exact path) is not a silent answer
 					if usesWide(fb, call.Call.Args[0], map[*ssa.BasicBlock]bool{}, 0) {
 						c.ok(key, pos, "on failure the computation falls back to the un-narrowed value (fast path / exact path)")
+						return
+					}
+					if i4PredicateFalse(fb, fn) {
+						c.ok(key, pos, "a predicate with a single bool result answers false when the value does not fit: a number outside the Go int range is not a member / does not qualify")
 						return
 					}
 					if r, isEx := i4Exceptions[key]; isEx && r != "" {
@@ -624,6 +686,29 @@ func usesWide(b *ssa.BasicBlock, wide ssa.Value, seen map[*ssa.BasicBlock]bool, 
 	for _, s := range b.Succs {
 		if usesWide(s, wide, seen, depth+1) {
 			return true
+		}
+	}
+	return false
+}
+
+// i4PredicateFalse: fn returns exactly one bool, and the failing block returns the constant false.
+func i4PredicateFalse(fb *ssa.BasicBlock, fn *ssa.Function) bool {
+	res := fn.Signature.Results()
+	if res.Len() != 1 {
+		return false
+	}
+	if bt, ok := res.At(0).Type().Underlying().(*types.Basic); !ok || bt.Kind() != types.Bool {
+		return false
+	}
+	for hops := 0; hops < 3 && len(fb.Instrs) > 0; hops++ {
+		switch x := fb.Instrs[len(fb.Instrs)-1].(type) {
+		case *ssa.Return:
+			k, ok := x.Results[0].(*ssa.Const)
+			return ok && k.Value != nil && k.Value.String() == "false"
+		case *ssa.Jump:
+			fb = fb.Succs[0]
+		default:
+			return false
 		}
 	}
 	return false
